@@ -11,11 +11,12 @@ GapClasses == {"any", "nl", "stmt"}
 \* line comment (both spellings) at a line end, blank line between statements
 \* blockstars / blockdoc / blockslash: block comments whose text is made of the delimiter characters themselves
 \* ("/**/", "/** d **/", "/*/"): the comment ends at the FIRST "*/" from the opener's own "*" on (Lexer!CommentEnd)
-Kinds == {"space", "tab", "block", "block2", "blockml", "blockstars", "blockdoc", "blockslash", "newline", "linecomment", "hashcomment", "blankline"}
+Kinds == {"space", "tab", "block", "block2", "blockml", "blockstars", "blockdoc", "blockslash", "newline", "linecomment", "hashcomment", "blankline",
+          "crlf", "crlfcomment"}   \* the line-break kinds once more with a carriage return before the line feed
 Permitted(cls, kind) ==
   CASE kind \in {"space", "tab", "block", "block2", "blockml", "blockstars", "blockdoc", "blockslash"} -> TRUE
-    [] kind = "newline" -> cls \in {"nl", "stmt"}
-    [] kind \in {"linecomment", "hashcomment", "blankline"} -> cls = "stmt"
+    [] kind \in {"newline", "crlf"} -> cls \in {"nl", "stmt"}
+    [] kind \in {"linecomment", "hashcomment", "blankline", "crlfcomment"} -> cls = "stmt"
 Table == [cls \in GapClasses |-> {k \in Kinds : Permitted(cls, k)}]
 VARIABLE cls
 Init == cls \in GapClasses
